@@ -9,6 +9,35 @@ open Flatland.C11 Flatland.Markup
 /-- author-chosen identifiers: non-empty, none of the characters that end a name -/
 def validName (k : Str) : Bool := !k.isEmpty && k.all (fun c => !nameStop c)
 
+/-- the declared name grammar `[A-Za-z][A-Za-z0-9_:.-]*` -/
+def isIdentStart (c : Char) : Bool := ('A' ≤ c && c ≤ 'Z') || ('a' ≤ c && c ≤ 'z')
+def isIdentChar (c : Char) : Bool :=
+  isIdentStart c || ('0' ≤ c && c ≤ '9') || c = '_' || c = ':' || c = '.' || c = '-'
+def identName : Str → Bool
+  | [] => false
+  | c :: cs => isIdentStart c && cs.all isIdentChar
+/-- … in lower case (what html.parser reports, and what `Generator.tag()` turns a tag name into) -/
+def lowerName (k : Str) : Bool := identName k && k.all (fun c => !('A' ≤ c && c ≤ 'Z'))
+
+theorem identChar_not_stop (c : Char) (h : isIdentChar c = true) : nameStop c = false := by
+  rw [Bool.eq_false_iff]
+  intro hs
+  simp only [nameStop, Bool.or_eq_true, decide_eq_true_eq] at hs
+  rcases hs with ((((rfl | rfl) | rfl) | rfl) | rfl) | rfl <;> simp [isIdentChar, isIdentStart] at h
+
+theorem identName_valid {k : Str} (h : identName k = true) : validName k = true := by
+  cases k with
+  | nil => simp [identName] at h
+  | cons c cs =>
+    simp only [identName, Bool.and_eq_true, List.all_eq_true] at h
+    simp only [validName, List.isEmpty_cons, Bool.not_false, Bool.true_and, List.all_cons, Bool.and_eq_true,
+      Bool.not_eq_true', List.all_eq_true]
+    refine ⟨identChar_not_stop c (by simp [isIdentChar, h.1]), fun x hx => identChar_not_stop x (h.2 x hx)⟩
+
+theorem lowerName_valid {k : Str} (h : lowerName k = true) : validName k = true := by
+  simp only [lowerName, Bool.and_eq_true] at h
+  exact identName_valid h.1
+
 theorem takeWhile_name (k rest : Str) (c : Char) (hk : k.all (fun c => !nameStop c) = true)
     (hc : nameStop c = true) :
     (k ++ c :: rest).takeWhile (fun c => !nameStop c) = k ∧
